@@ -177,8 +177,38 @@ class Program:
             return f"{base}.{mod}" if base else mod
         return base
 
+    # functools.total_ordering: the comparison methods it derives from the one the class defines
+    _TOTAL_ORDERING = {
+        "__lt__": {"__gt__": "not r and self != other", "__le__": "r or self == other", "__ge__": "not r"},
+        "__le__": {"__ge__": "not r or self == other", "__lt__": "r and self != other", "__gt__": "not r"},
+        "__gt__": {"__lt__": "not r and self != other", "__ge__": "r or self == other", "__le__": "not r"},
+        "__ge__": {"__le__": "not r or self == other", "__gt__": "r and self != other", "__lt__": "not r"},
+    }
+
+    def _synthesize_total_ordering(self, ci: ClassInfo, m: Module):
+        roots = [r for r in ("__lt__", "__le__", "__gt__", "__ge__") if r in ci.methods]
+        if not roots:
+            return
+        root = roots[0]
+        for name, expr in self._TOTAL_ORDERING[root].items():
+            if name in ci.methods:
+                continue
+            src = (f"def {name}(self, other):\n"
+                   f"    r = self.{root}(other)\n"
+                   f"    if r is NotImplemented:\n"
+                   f"        return r\n"
+                   f"    return {expr}\n")
+            fn = ast.parse(src).body[0]
+            for n in ast.walk(fn):
+                if hasattr(n, "lineno"):
+                    n.lineno = ci.node.lineno
+            fi = FuncInfo(name, m, ci, fn, "method")
+            fi.synthetic = "functools.total_ordering"
+            ci.methods[name] = fi
+
     def _index_class(self, m: Module, node: ast.ClassDef) -> ClassInfo:
         ci = ClassInfo(node.name, m, node)
+        ci.decorators = _decorator_names(node)
         for b in node.bases:
             if isinstance(b, ast.Name):
                 ci.base_names.append(b.id)
@@ -224,6 +254,8 @@ class Program:
             elif isinstance(st, ast.AnnAssign):
                 if isinstance(st.target, ast.Name) and st.value is not None:
                     ci.attrs[st.target.id] = st.value
+        if "total_ordering" in ci.decorators:
+            self._synthesize_total_ordering(ci, m)
         return ci
 
     # ------------------------------------------------------------- resolution
